@@ -1206,6 +1206,28 @@ def instantiate(I, state, frame, bi, tmpl, span, anonymous=False, tag=""):
     return [(TOP, state)]
 
 
+def tmpl_nonempty(tm):
+    """is the iterator known to yield at least once?  ('fresh' at the bottom of a chain of cardinality-preserving adaptors)"""
+    while isinstance(tm, tuple) and tm:
+        if tm[0] == "fresh":
+            return True
+        if tm[0] in ("map", "enum") and len(tm) > 1:
+            tm = tm[1]
+            continue
+        return False
+    return False
+
+
+def tmpl_stepped(tm):
+    """the same iterator after its first step: the 'fresh' marker is gone"""
+    if isinstance(tm, tuple) and tm:
+        if tm[0] == "fresh":
+            return tm[1]
+        if tm[0] in ("map", "enum") and len(tm) > 1:
+            return (tm[0], tmpl_stepped(tm[1])) + tuple(tm[2:])
+    return tm
+
+
 def rebind(I, state, frame, bi, e, anonymous, tag=""):
     """an element taken out of a collection: anonymous keys get a fresh identity"""
     if e[0] == "key" and e[1] is None:
@@ -1229,13 +1251,14 @@ def next_common(I, state, frame, bi, t, args, span):
                if hk[0] == "job" and isinstance(hk[1], tuple) and hk[1][:3] == ("b", frame.fid, bi)]:
         none_state.heap[hk] = DEAD
     res.append((adt(OPTION, {0: ()}), none_state))
-    if it[0] == "iter" and it[1] and it[1][0] == "fresh" and a[0] == "ref" and a[1][0] == "local":
+    if it[0] == "iter" and it[1] and tmpl_nonempty(it[1]) and a[0] == "ref" and a[1][0] == "local":
         # first step of an iterator known to be non-empty: it yields; the iterator is stepped (no longer fresh)
         res = []
         st0 = state.copy()
         cur = I.load_root(st0, a[1])
-        I.store_root(st0, a[1], av_set(cur, a[2], ("iter", it[1][1]), I.uni) if a[2] else ("iter", it[1][1]))
-        for (e, st) in instantiate(I, st0, frame, bi, it[1][1], span):
+        stepped = ("iter", tmpl_stepped(it[1]))
+        I.store_root(st0, a[1], av_set(cur, a[2], stepped, I.uni) if a[2] else stepped)
+        for (e, st) in instantiate(I, st0, frame, bi, stepped[1], span):
             res.append((some(e), st))
         return res
     if it[0] == "iter":
@@ -1318,7 +1341,10 @@ def m_neighbors(I, state, frame, bi, t, args, span):
     I.rec.put("neighbors", I.sitekey(frame, bi, -1),
               dict(fn=frame.body.name, bb=bi, span=span, key=(k[1], k[2]) if k[0] == "key" else (None, frozenset()), dir=d,
                    stack=frame.stack))
-    return [(("iter", ("nbr", k[1] if k[0] == "key" else None, k[2] if k[0] == "key" else frozenset(), d)), state)]
+    tm = ("nbr", k[1] if k[0] == "key" else None, k[2] if k[0] == "key" else frozenset(), d)
+    if getattr(I.cfg, "nonempty_nbrs", False):
+        tm = ("fresh", tm)       # case 'the job has at least one neighbour' (the uniform-neighbourhood partition)
+    return [(("iter", tm), state)]
 
 
 @model("petgraph::graphmap::GraphMap::<N, E, Ty>::neighbors")
@@ -1520,6 +1546,7 @@ def m_for_each(I, state, frame, bi, t, args, span):
 def m_find(I, state, frame, bi, t, args, span):
     it = deref(I, state, args[0]) if args[0][0] == "ref" else args[0]
     res = [(adt(OPTION, {0: ()}), state.copy())]
+    nonempty = it[0] == "iter" and tmpl_nonempty(it[1])
     mt = mf = False
     for (e, s1) in each_element(I, state, frame, bi, it, span):
         root = ("findelem", frame.fid, bi)
@@ -1542,6 +1569,8 @@ def m_find(I, state, frame, bi, t, args, span):
     I.rec.put("quantifier", I.sitekey(frame, bi, -1),
               dict(fn=frame.body.name, bb=bi, span=span, all=False, find=True, iter=it if it[0] == "iter" else None,
                    may_true=mt, may_false=mf, stack=frame.stack))
+    if nonempty and not mf:
+        res = res[1:]        # every element satisfies the predicate and there is at least one: the search succeeds
     return res
 
 
@@ -1563,7 +1592,7 @@ def m_all_any(is_all):
                   dict(fn=frame.body.name, bb=bi, span=span, all=is_all, iter=it if it[0] == "iter" else None,
                        may_true=may_true, may_false=may_false, stack=frame.stack))
         # `str::split` yields at least one piece: the quantifier is not vacuous
-        nonempty = it[0] == "iter" and it[1][0] == "fresh"
+        nonempty = it[0] == "iter" and tmpl_nonempty(it[1])
         if is_all:
             vals = ([True] if (may_true or not nonempty) else []) + ([False] if may_false else [])
         else:
@@ -1751,7 +1780,15 @@ def m_take(I, state, frame, bi, t, args, span):
             else:
                 new = TOP
         root_av = I.load_root(state, a[1])
-        if a[1][0] in ("job", "self"):
+        if is_self_field(I, a, I.layout.signals_field) and len(a[2]) == 1:
+            # the whole batch of pending signals is taken out of the queue: same as draining it
+            return [(("iter", ("drain_signals",)), state)]
+        sf_ = self_field_of(I, a)
+        if a[1] == ("self",) and sf_ is not None and sf_ != I.layout.jobs_field and len(a[2]) == 1:
+            I.rec.put("store_self", I.sitekey(frame, bi, -1),
+                      dict(fn=frame.body.name, bb=bi, span=span, proj=a[2], value=new, old=cur, stack=frame.stack, call="mem::take/replace"))
+            I.store_root(state, a[1], av_set(root_av, a[2], new, I.uni))
+        elif a[1][0] in ("job", "self"):
             I.rec.note("imprecise", "mem::take/replace on engine state in %s" % frame.body.name)
             I.havoc_jobs(state)
         else:
